@@ -47,7 +47,7 @@ VARIANTS = {
     'deny-bus-errors': '    <deny receive_sender="org.freedesktop.DBus" receive_type="error" receive_requested_reply="true"/>\n',
     'deny-bus-signals': '    <deny receive_sender="org.freedesktop.DBus" receive_type="signal" receive_member="NameOwnerChanged" receive_interface="org.freedesktop.DBus"/>\n',
 }
-FILTERS = {'all': [], 'signals': [b"type='signal'"], 'fromA': None, 'ns': [b"path_namespace='/t'"], 'toA': 'destA'}
+FILTERS = {'all': [], 'signals': [b"type='signal'"], 'fromA': None, 'ns': [b"path_namespace='/t'"], 'toA': 'destA', 'toAname': [b"destination='com.example.A'"]}
 PEERS = ['A', 'B']
 
 
@@ -87,6 +87,7 @@ class Session:
             for l in PEERS + ['M', 'R0']:
                 r.connect_slot(l)
             r.method('A', 'AddMatch', [R.S(NOC_RULE)])
+            r.method('A', 'RequestName', [R.S(b'com.example.A'), R.U(0)])
             r.method('B', 'AddMatch', [R.S(b"type='signal',interface='t.i'")])
             r.method('B', 'AddMatch', [R.S(b"type='signal',interface='com.example.CannotReceive'")])      # subscribed, but its receive policy refuses these
             for l in PEERS + ['M', 'R0']:
@@ -235,12 +236,18 @@ class Session:
             selfaddr = lambda m_: m_.sender == R.BUS and m_.destination == R.BUS
             gotm = Counter(R.canon_msg(o.msg) for o in run.take(self.monitor) if not selfaddr(o.msg))
             wantm = Counter()
+            owned = {}            # unique name -> well-known names it is the primary owner of
+            for line in run.impl_key().split('|'):
+                if line.startswith('svc ') and not line.startswith('svc @') and len(line.split(' ')) > 2:
+                    lab = line.split(' ')[2].split(':')[0].lstrip('@')
+                    if run.uname.get(lab):
+                        owned.setdefault(run.uname[lab], set()).add(line.split(' ')[1].encode())
             for o in ref:
                 m_ = o.msg
                 if selfaddr(m_):
                     continue
-                v_ = M.MsgView(m_.mtype, {m_.sender} | ({NAME} if (self.owner(run) and run.uname.get(self.owner(run)) == m_.sender) else set()),
-                               {m_.destination} if m_.destination is not None else set(), m_.interface, m_.member, m_.path, m_.body, False)
+                v_ = M.MsgView(m_.mtype, {m_.sender} | owned.get(m_.sender, set()),
+                               ({m_.destination} | owned.get(m_.destination, set())) if m_.destination is not None else set(), m_.interface, m_.member, m_.path, m_.body, False)
                 if any(M.matches(r, v_, holder_is_addressee=True) for r in rules):
                     wantm[R.canon_msg(m_)] += 1
             if gotm != wantm:
